@@ -279,6 +279,35 @@ func runL2(c *driver.Ctx, rng *rand.Rand, caseNo int64) {
 		}
 	}()
 
+	// lock hammers: goroutines that do nothing but read the size (each read takes the queue's lock). The
+	// contention makes goroutines inside the queue lose the CPU exactly where they take the lock, which widens
+	// windows between "something was published" and "the lock was taken" that no callback of the harness can
+	// reach (seeded change C02-1: result delivered before the size is released).
+	hammers := 0
+	if cfg.WFR || caseNo%3 == 0 {
+		hammers = 2 + int(caseNo%3)
+	}
+	for h := 0; h < hammers; h++ {
+		sizeWG.Add(1)
+		go func() {
+			defer sizeWG.Done()
+			for {
+				select {
+				case <-stopSize:
+					return
+				default:
+				}
+				if n, ok := r.size(); ok && (n < 0 || n > cfg.Capacity) {
+					hmu.Lock()
+					if len(sizes) < 60 {
+						sizes = append(sizes, sizeRec{0, 0, n})
+					}
+					hmu.Unlock()
+				}
+			}
+		}()
+	}
+
 	witness := func() map[string]any {
 		hmu.Lock()
 		defer hmu.Unlock()
@@ -428,6 +457,9 @@ func runL2(c *driver.Ctx, rng *rand.Rand, caseNo int64) {
 		}
 		cid := nProd
 		for _, sr := range sizes {
+			if sr.Call == 0 {
+				continue // out-of-bounds sample of a hammer goroutine (no stamps): judged by the bounds check only
+			}
 			ops = append(ops, porcupine.Operation{ClientId: cid, Input: pin{kind: "size"}, Call: sr.Call, Output: pout{n: sr.N}, Return: sr.Ret})
 		}
 		cid++
